@@ -366,7 +366,9 @@ impl Gate {
 /// A merge policy scripted by the harness: when armed, the first list of >= `want` segments none of which is
 /// committed is merged as ONE candidate, segments in creation order (older first); fires once.
 #[derive(Default)]
-struct ScriptSt { armed: bool, want: usize, committed: Vec<SegmentId>, known_order: Vec<SegmentId>, fired: Option<Vec<SegmentId>> }
+struct ScriptSt { armed: bool, want: usize, committed: Vec<SegmentId>, known_order: Vec<SegmentId>, fired: Option<Vec<SegmentId>>,
+                  /// true: fire on the list of COMMITTED segments (every segment is in `committed` or was created by a merge since), false: on uncommitted ones
+                  on_committed: bool, exclude: Vec<SegmentId> }
 #[derive(Clone, Default)]
 struct ScriptedPolicy(Arc<Mutex<ScriptSt>>);
 impl std::fmt::Debug for ScriptedPolicy { fn fmt(&self, f: &mut std::fmt::Formatter<'_>) -> std::fmt::Result { write!(f, "ScriptedPolicy") } }
@@ -374,7 +376,9 @@ impl tantivy::merge_policy::MergePolicy for ScriptedPolicy {
     fn compute_merge_candidates(&self, segments: &[tantivy::SegmentMeta]) -> Vec<tantivy::merge_policy::MergeCandidate> {
         let mut g = self.0.lock().unwrap();
         if !g.armed || segments.len() < g.want.max(2) { return vec![]; }
-        if segments.iter().any(|m| g.committed.contains(&m.id())) { return vec![]; }
+        if g.on_committed {
+            if segments.iter().any(|m| g.exclude.contains(&m.id())) || !segments.iter().any(|m| g.committed.contains(&m.id())) { return vec![]; }
+        } else if segments.iter().any(|m| g.committed.contains(&m.id())) { return vec![]; }
         let mut ids: Vec<SegmentId> = g.known_order.iter().filter(|i| segments.iter().any(|m| m.id() == **i)).cloned().collect();
         for m in segments { if !ids.contains(&m.id()) { ids.push(m.id()); } }   // the segment just added: newest, last
         g.armed = false;
@@ -487,7 +491,8 @@ fn run_schedule(rng: &mut Rng, kind: usize, k_gate: usize) -> Result<SchedOut, S
                  "control: two uncommitted segments around a delete, no merge",
                  "rollback, delete as first operation, merge of committed segments, searcher before any commit",
                  "double gate: commit of a delete parked in its meta.json write while the merge reaches end_merge",
-                 "policy merge of uncommitted segments with a delete and re-adds between them"];
+                 "policy merge of uncommitted segments with a delete and re-adds between them",
+                 "policy merge of committed segments while deletes are pending; searcher before any commit, then rollback or commit"];
     let kname = names[kind];
     let committed: Vec<SegmentId> = index.searchable_segment_ids().map_err(|e| format!("{e}"))?;
     let mut gated = false;
@@ -627,6 +632,57 @@ fn run_schedule(rng: &mut Rng, kind: usize, k_gate: usize) -> Result<SchedOut, S
             s.commit()?;
             s.w.set_merge_policy(Box::new(NoMergePolicy));
             s.add(2)?; s.commit()?;
+        }
+        12 => {
+            // deletes are issued but NOT committed; the segment updater then consults the merge policy (a segment is added,
+            // or another merge ends) and the policy merges the committed segments: target = LAST COMMIT's opstamp, so the
+            // pending deletes must not be applied / published; a rollback must still find the documents
+            if committed.len() < 2 { return Err("skip: need two committed segments".into()); }
+            let policy = ScriptedPolicy::default();
+            s.w.set_merge_policy(Box::new(policy.clone()));
+            let t = s.rng.below(4); s.del_tag(t);
+            if s.next > 0 { let i = s.rng.below(s.next); s.del_id(i); }
+            if s.rng.chance(1, 2) { let t2 = s.rng.below(4); s.del_tag(t2); }
+            let by_merge_end = s.rng.chance(1, 2);
+            let mut nos: Vec<u64> = vec![];
+            if by_merge_end {
+                // trigger: an explicit merge of ONE committed segment ends
+                for i in &committed[1..] { match s.seg_no.get(&i.uuid_string()) { Some(n) => nos.push(*n), None => s.coq_ok = false } }
+                nos.push(s.seg_counter);           // the segment the explicit merge creates
+                { let mut g = policy.0.lock().unwrap(); g.armed = true; g.on_committed = true; g.want = committed.len(); g.committed = committed.clone(); g.known_order = committed[1..].to_vec(); }
+                let fut = s.start_merge(&committed[..1])?;
+                let r = fut.wait(); s.end_merge();
+                s.trace.push(format!("explicit merge of one committed segment ended ({}); the policy is consulted", if r.is_ok() { "ok" } else { "error" }));
+            } else {
+                // trigger: a new (uncommitted) segment is added
+                for i in &committed { match s.seg_no.get(&i.uuid_string()) { Some(n) => nos.push(*n), None => s.coq_ok = false } }
+                s.add(2)?;
+                { let mut g = policy.0.lock().unwrap(); g.armed = true; g.on_committed = true; g.want = committed.len(); g.committed = committed.clone(); g.known_order = committed.clone(); }
+                s.finalize_uncommitted()?;
+                s.trace.push("a segment was added; the policy is consulted".into());
+            }
+            let fired = policy.0.lock().unwrap().fired.clone();
+            match fired {
+                Some(ids) if ids.len() == committed.len() => {
+                    s.ops.push(format!("StartPolicyMerge {}", cf::ns(&nos))); s.seg_counter += 1;
+                    s.trace.push(format!("policy merge of the {} committed segments started with deletes pending", ids.len()));
+                }
+                other => return Err(format!("skip: scripted policy did not fire on the committed segments ({:?})", other.map(|v| v.len()))),
+            }
+            // the merge is published by end_merge (save_metas): wait until meta.json lists a single segment
+            let t0 = std::time::Instant::now();
+            let mut done = false;
+            while t0.elapsed() < Duration::from_millis(4000) {
+                if index.searchable_segment_ids().map(|v| v.len() <= 1).unwrap_or(false) { done = true; break; }
+                std::thread::sleep(Duration::from_millis(5));
+            }
+            std::thread::sleep(Duration::from_millis(20));
+            s.end_merge();
+            gated = done;
+            s.trace.push(format!("policy merge published: {done}"));
+            s.check("after the policy merge of committed segments, before any commit")?;
+            if s.rng.chance(1, 2) { s.rollback()?; s.add(2)?; s.commit()?; } else { s.commit()?; }
+            s.w.set_merge_policy(Box::new(NoMergePolicy));
         }
         4 => {
             if committed.len() < 2 { return Err("skip: need two segments".into()); }
@@ -912,10 +968,10 @@ fn main() {
     }
 
     // ---------------- schedules: operations issued while a merge is running ----------------
-    let n_sched = if thorough { 600 } else { 96 };
+    let n_sched = if thorough { 650 } else { 104 };
     for i in 0..n_sched + 2 {
-        let kind = i % 12;
-        let k_gate = [1usize, 2, 3, 5, 8, 13, 21, 34, 55][(i / 12) % 9];
+        let kind = i % 13;
+        let k_gate = [1usize, 2, 3, 5, 8, 13, 21, 34, 55][(i / 13) % 9];
         let res = if i >= n_sched { guarded(|| run_corpus(&mut rng, i == n_sched)) } else { guarded(|| run_schedule(&mut rng, kind, k_gate)) };
         match res {
             Ok(Ok(o)) => {
